@@ -199,9 +199,19 @@ func Channels(name string, tags map[string]bool) *vtx.Profile {
 	peers := []string{"A", "A2", "B"}
 
 	return &vtx.Profile{
-		Name: name, Configs: []vtx.Config{{Lifetime: 10 * time.Hour}, {Lifetime: 10 * time.Hour, Perm: 100 * time.Second, Chan: 40 * time.Second}},
+		Name: name, Configs: []vtx.Config{{Lifetime: 10 * time.Hour}, {Lifetime: 10 * time.Hour, Perm: 100 * time.Second, Chan: 40 * time.Second},
+			// three bindings of one allocation whose LOWEST number expires first, the others living on
+			{Name: "three-bindings-lowest-expires-first", Lifetime: 10 * time.Hour, Perm: 100 * time.Second, Chan: 40 * time.Second}},
 		Clients: []string{"c1", "c2"}, Peers: peers, Chans: nums, Depth: depth, Drain: true, Tags: tags,
-		Setup: func(vtx.Config) []vtx.Event { return []vtx.Event{E("alloc", "c1", 0), E("alloc", "c2", 0)} },
+		Setup: func(c vtx.Config) []vtx.Event {
+			ev := []vtx.Event{E("alloc", "c1", 0), E("alloc", "c2", 0)}
+			if c.Name == "three-bindings-lowest-expires-first" {
+				ev = append(ev, E("chan", "c1", 0x4000, "A"), vtx.Event{K: "adv", Rule: "by10s", D: 10 * time.Second, L: -1},
+					E("chan", "c1", 0x4001, "A2"), E("chan", "c1", 0x7FFF, "B"))
+			}
+
+			return ev
+		},
 		Menu: func(m *vtx.Model, now time.Time, _ int) []vtx.Event {
 			var e []vtx.Event
 			for _, n := range nums {
@@ -210,6 +220,8 @@ func Channels(name string, tags map[string]bool) *vtx.Profile {
 				}
 			}
 			e = append(e, E("chan", "c2", 0x4000, "A"), E("chan", "c2", 0x4001, "A"))
+			// A's address in the IPv6 form of the attribute (::ffff:10.1.0.1) is the same peer
+			e = append(e, E("chan", "c1", 0x4000, "A"+vtx.Mapped6), E("chan", "c1", 0x4001, "A"+vtx.Mapped6))
 			// the repeat of an established binding whose success response the server fails to write (one transient
 			// ENOBUFS): the client hears nothing, the binding is what it was
 			if a := m.Allocs["c1"]; a != nil {
